@@ -356,6 +356,79 @@ clustering of the *whole* network (`Pyunicorn.Net.localClustering`, C03) average
 def internalGlobalClustering (n : Nat) (A : Adj) (L : List Nat) : Option Rat :=
   mean (L.map fun i => Pyunicorn.Net.localClustering n A i)
 
+/-! ### Round 3: the single-network methods of `Network` (network.py) that the whole-network
+limits of the link counts and of the n.s.i. measures refer to, *as coded*
+(`Network.nsi_degree` / `nsi_local_clustering` are `Pyunicorn.Net.nsiOutdeg` /
+`Pyunicorn.Net.nsiLocalClustering` of C03) -/
+
+/-- `nz_coords(adjacency).shape[0]`: number of non-zero entries of the 0/1 matrix -/
+def netNonzeros (n : Nat) (A : Adj) : Nat :=
+  ((List.range n).map fun i => ((List.range n).map fun j => b2n (A i j)).sum).sum
+
+/-- `Network.n_links` as left by the adjacency setter (network.py:419-423):
+`edges.shape[0]`, halved (`//= 2`) on an undirected network -/
+def netNLinks (directed : Bool) (n : Nat) (A : Adj) : Nat :=
+  if directed then netNonzeros n A else netNonzeros n A / 2
+
+/-- `Network.link_density = 1.0 * n_links / N / (N - 1)` (evaluated *before* the halving);
+`none` = `ZeroDivisionError` (`N ≤ 1`) -/
+def netLinkDensity (n : Nat) (A : Adj) : Option Rat :=
+  if n * (n - 1) = 0 then none
+  else some ((netNonzeros n A : Rat) / (n : Rat) / ((n : Rat) - 1))
+
+/-- `A⁺` entry as a number -/
+def apn (A : Adj) (i j : Nat) : Rat := if aplus A i j then 1 else 0
+
+/-- `Network.nsi_global_clustering()` = `nsi_local_clustering().dot(node_weights) /
+total_node_weight`; `none` = division by a zero total weight -/
+def netNsiGlobalClustering (n : Nat) (A : Adj) (w : Nat → Rat) : Option Rat :=
+  let W := ((List.range n).map w).sum
+  if W = 0 then none
+  else some (((List.range n).map fun i => Pyunicorn.Net.nsiLocalClustering n A w i * w i).sum / W)
+
+/-- `Network.nsi_transitivity()` (network.py:2529-2534) with `A_Dw = A⁺ · diag(w)`:
+`num = (A_Dw · A_Dw · A_Dw).diagonal().sum()`, `denum = (diag(w) · A_Dw · A_Dw).sum()`
+(the innermost sum is the index of the matrix product); `none` = division by zero -/
+def netNsiTransitivity (n : Nat) (A : Adj) (w : Nat → Rat) : Option Rat :=
+  let R := List.range n
+  let num := (R.map fun i => (R.map fun j => (R.map fun k =>
+      apn A i j * w j * (apn A j k * w k) * (apn A k i * w i)).sum).sum).sum
+  let den := (R.map fun i => (R.map fun j => (R.map fun k =>
+      w i * (apn A i k * w k) * (apn A k j * w j)).sum).sum).sum
+  if den = 0 then none else some (num / den)
+
+/-- `Network.nsi_closeness()` (network.py:3193-3195): `W / ((D + I) · w)_i`; an `inf` in the row
+makes the (non-zero weight) dot product `inf` and the closeness `0`; `none` = division by zero -/
+def netNsiCloseness (n : Nat) (D : Dist) (w : Nat → Rat) (i : Nat) : Option Rat :=
+  if (List.range n).any (fun j => (D i j).isNone) then some 0
+  else
+    let s := ((List.range n).map fun j => ((D i j).getD 0 + (if i = j then 1 else 0)) * w j).sum
+    if s = 0 then none else some (((List.range n).map w).sum / s)
+
+/-- entry of `path_lengths() + identity` with the unconnected pairs set to zero -/
+def nsiDistZ (D : Dist) (i j : Nat) : Rat :=
+  match D i j with
+  | none => 0
+  | some d => d + (if i = j then 1 else 0)
+
+/-- `Network.nsi_average_path_length()` (network.py:2711-2722): unconnected pairs are zeroed in
+`D + I` and in `outer(w, w)`; `w · (D* · w) / Σ (weight products)`; `none` = division by zero -/
+def netNsiAPL (n : Nat) (D : Dist) (w : Nat → Rat) : Option Rat :=
+  let R := List.range n
+  let num := (R.map fun i => w i * (R.map fun j => nsiDistZ D i j * w j).sum).sum
+  let den := (R.map fun i => (R.map fun j => if (D i j).isNone then 0 else w i * w j).sum).sum
+  if den = 0 then none else some (num / den)
+
+/-! ### Round 3: fixed-width integer arithmetic (the types of `core/_ext/types.py`) -/
+
+/-- two's-complement wrap of `x` into the signed range `[-m, m)` (`m = 2^(bits-1)`) -/
+def wrap (m : Int) (x : Int) : Int := (x + m) % (2 * m) - m
+
+/-- `cross_degree * (cross_degree - 1)` (the integer part of `norm` in
+`cross_local_clustering[_sparse]`) evaluated element-wise in a signed integer type of range
+`[-m, m)`, as numpy does for an integer array of that dtype -/
+def normProdW (m : Int) (k : Int) : Int := wrap m (wrap m k * wrap m (wrap m k - 1))
+
 /-! ### specification vocabulary -/
 
 /-- sum over the unordered pairs of positions `k < j` of a list of `f L[j] L[k]`
